@@ -104,6 +104,9 @@ KeyOK(k) == k # E /\ IndexOf(k, COLON) = 0 /\ TrimSpace(k) = k
 InDom12(rec, d) ==
   LET w == WriteIdx(rec) IN
   /\ w > 0 /\ InSeq(rec.tags, "roundtrip") /\ ~rec.obs[w].panic /\ rec.obs[w].errKind # "setup"
+  \* the parser wrote after successful calls only (a parse that stopped at an error leaves cells half applied - a cleared map
+  \* whose entry was refused - which no file can express)
+  /\ \A k \in 1..(w - 1) : rec.obs[k].errKind = "none"
   /\ \A o \in RoundTripOpts(d) : d.opts[o].kind = "map" => \A p \in 1..Len(rec.obs[w].values[o]) : KeyOK(rec.obs[w].values[o][p][1])
   \* no written option holds a value that its own choice list rejects (not reachable by parsing)
   /\ \A o \in RoundTripOpts(d) : (d.opts[o].choices # <<>> /\ d.opts[o].kind # "map") =>
